@@ -335,5 +335,9 @@ def run(ctx) -> None:
     check_n3(ctx)
     check_n4(ctx)
     check_n5(ctx)
+    ctx.rule('N6', 'client dictionary requests are written to the input file with str(value): the same values give the same run as a file')
+    from rules.client_common import check_lossless_rendering
+    n6 = check_lossless_rendering(ctx, 'N6')
+    ctx.floor('N6', n6, 2, 'client parameter writers')
     ctx.undecided('byte-identical reports across entry points (depends on file-system and formatting at run time)',
                   'behaviour of the undocumented script entry `python GEOPHIRESv3.py` without argv[2]')
